@@ -72,7 +72,9 @@ LEVEL = {
                     'the sum\'s (NaN where the sum is NaN) and sum-diff over the same window is clean.',
             'design_ref': '5 C11', 'note': _TB},
     'C12': {'text': 'Theorems: the view/sum and view-raw responses decode to exactly the header and series/point lists the handler encoded; the empty body is the not-exist answer; '
-                    'a text error body never decodes as a header. Every read command is run against a real server and against the directory and both are compared with the model.',
+                    'a text error body never decodes as a header. Request side: for every byte string used as a value (file names with + & % = ; # space, non-ASCII) the query the client builds with QueryEscape '
+                    'parses back (ParseQuery, as ParseForm applies it) to exactly the pairs sent; the escaped form never contains a separator. '
+                    'Every read command is run against a real server and against the directory and both are compared with the model; the net/url model is compared with the real package.',
             'design_ref': '5 C12',
             'note': _TB + 'net/http is trusted to deliver the handler\'s bytes and headers; url.QueryEscape / ParseForm are exercised, not modelled.'},
     'C16': {'text': 'Theorems: copy-like commands never answer diff and answer not-exist only for a missing source; no success => existing destination untouched; comparison verdicts are ok/diff/err. '
